@@ -131,13 +131,17 @@ class C05(Check):
     # ------------------------------------------------------------------ one network
     def _network(self, ctx, B, spec, label, failures, broken, expect_judged=None, grid=False):
         tr = K.run_instrumented(spec, keep_wn=True)
+        if spec.get("rerun"):
+            ctx.count("rerun:" + ("fresh" if spec["rerun"].get("fresh") else "same-simulator") + (":control-edits" if spec["rerun"].get("ctl_edits") else ""))
+        spec_run = spec
+        spec = K.effective_spec(spec)  # the controls as the judged (second) run has them
         sig = K.spec_sig(spec)
         hyd = spec["options"]["hyd"]
         if tr.exception:
             ctx.count("run-exception:" + tr.exception.split(":")[0])
             if not tr.exception.startswith("NotImplementedError"):
                 failures.append(Failure("run-exception-" + tr.exception.split(":")[0], "WNTRSimulator raised %s (%s)" % (tr.exception, label),
-                                        {"spec": spec, "observed": tr.exception}))
+                                        {"spec": spec.get("_orig", spec), "observed": tr.exception}))
             return tr
         ctx.count("run:" + ("error_code" if tr.error else "ok"))
         wn = tr.wn
@@ -323,7 +327,7 @@ class C05(Check):
         # --- oracles on reported steps
         self._oracles(ctx, B, spec, tr, tr.rows, tids, label, failures, expect_judged)
         if grid and tr.rows and not tr.error:
-            tr2 = K.run_instrumented(spec, report=2 * hyd, keep_wn=True)
+            tr2 = K.run_instrumented(spec_run, report=2 * hyd, keep_wn=True)
             if not tr2.exception:
                 ctx.count("grid-rerun")
                 self._oracles(ctx, B, spec, tr2, tr2.rows, tids, label + "/report=%d" % (2 * hyd), failures, None, thresholds=False)
@@ -419,7 +423,7 @@ class C05(Check):
                                 "%s t=%s: control %s (IF %s %s %s %s THEN %s %s %s, priority %d) holds on the reported state: its companion puts the link back in "
                                 "service, but %s is reported CLOSED and no triggered control of >= priority closes it"
                                 % (label, r["t"], c["name"], c["src"], c["attr"], c["rel"], c["thr"], c["link"], c.get("act"), c["value"], c["prio"], c["link"]),
-                                {"spec": spec, "oracle": "controlsConsistent(companion)", "time": r["t"], "control": c, "private": r["priv"][tr.links.index(c["link"])]}))
+                                {"spec": spec.get("_orig", spec), "oracle": "controlsConsistent(companion)", "time": r["t"], "control": c, "private": r["priv"][tr.links.index(c["link"])]}))
                         continue
                     c = ctl[k]
                     kind = ("level" if c["src"] in tankset else "pressure") + ("" if c.get("act", "status") == "status" else "-setting")
@@ -435,7 +439,7 @@ class C05(Check):
                             "(kind %s, no check valve / pump / tank at a limit / conflicting control of >= priority explains it)"
                             % (label, r["t"], c["name"], c["src"], c["attr"], c["rel"], c["thr"], c["link"], c["value"], c["prio"], c["link"],
                                {0.0: "CLOSED", 1.0: "OPEN", 2.0: "ACTIVE"}.get(r["links"][c["link"]][0]), tr.kinds[li]),
-                            {"spec": spec, "oracle": "controlsConsistent", "time": r["t"], "control": c, "reported": r["links"][c["link"]],
+                            {"spec": spec.get("_orig", spec), "oracle": "controlsConsistent", "time": r["t"], "control": c, "reported": r["links"][c["link"]],
                              "tanks": r["tanks"], "private": r["priv"][li]}))
 
             B.ask(" ".join(toks), cb)
@@ -487,7 +491,7 @@ class C05(Check):
                             "more than one second of flow past the threshold -- no partial step%s"
                             % (label, c["name"], c["src"], c["attr"], c["rel"], c["thr"], b["t"], rb[1] - p["elev"], a["t"], ra[1] - p["elev"], ra[2],
                                "; the tentative volume left the volume curve (interp clamps before the backtrack)" if clamp else ""),
-                            {"spec": spec, "oracle": "thresholdNotOvershot", "control": c, "pair": [ra, rb], "tank_params": p}))
+                            {"spec": spec.get("_orig", spec), "oracle": "thresholdNotOvershot", "control": c, "pair": [ra, rb], "tank_params": p}))
 
                 B.ask("thr %d %s %s %s %s %s %d" % (tids[c["src"]], c["attr"], c["rel"], F(c["thr"]), F(SECS), F(ATOL * (1 + abs(rows[i]["tanks"][c["src"]][1]))), i), cb2)
         if expect_judged is not None:
@@ -496,7 +500,7 @@ class C05(Check):
                     if judged.get(k, 0) == 0:
                         failures.append(Failure("designed-crossing-not-served",
                                                 "%s: control %s never took effect at a step where its condition first holds" % (label, ctl[k]["name"]),
-                                                {"spec": spec, "control": ctl[k], "rows": [(r["t"], r["tanks"]) for r in rows]}))
+                                                {"spec": spec.get("_orig", spec), "control": ctl[k], "rows": [(r["t"], r["tanks"]) for r in rows]}))
 
             B.ask("val eq 0 0", final)
 
@@ -516,6 +520,11 @@ class C05(Check):
         specs.append(("designed/priority-conflict-high-last", K.priority_conflict_spec(False), None))
         specs.append(("designed/priority-conflict-equal", K.priority_conflict_spec(True, True), None))
         # a RULE with a tank-level premise, rule step < hydraulic step, alone and next to a simple level control
+        for op in ("then_action", "condition", "priority", "add"):
+            specs.append(("designed/rerun-same-simulator-control-%s" % op, K.rerun_control_edit_spec(op, False), [0]))
+        specs.append(("designed/rerun-fresh-simulator-control-then_action", K.rerun_control_edit_spec("then_action", True), [0]))
+        specs.append(("designed/leak-threshold-drain", K.leak_threshold_spec("drain"), [0]))
+        specs.append(("designed/leak-threshold-refill", K.leak_threshold_spec("refill"), [0]))
         specs.append(("designed/several-setting-controls-cond", K.multi_setting_spec("cond"), None))
         specs.append(("designed/several-setting-controls-time", K.multi_setting_spec("time"), None))
         specs.append(("designed/prv-commanded-open-reverse-flow", K.prv_open_spec("PRV"), None))
@@ -538,6 +547,10 @@ class C05(Check):
             force = {}
             if i % 3 == 0:
                 force["tank_kind"] = "cyl"
+            if i % 4 == 1:
+                force["rerun_controls"] = True
+            if i % 5 == 2:
+                force["leaks"] = True
             specs.append(("seed%d/net%d" % (ctx.seed, i), K.random_network(ctx.rng, ctx.quick, force), None))
         for k, (label, spec, expect) in enumerate(specs):
             tr = self._network(ctx, B, spec, label, failures, broken, expect_judged=expect, grid=(k % 4 == 0))
